@@ -84,7 +84,7 @@ def gen(rng, tier):
             t1 = pyconsts.sprinkle(rng, t1, pal, p)
             t2 = pyconsts.sprinkle(rng, t2, pal, p)
         cases.append({'stack': stack, 't1': t1, 't2': t2, 'nvars': nv, 'engsalt': rng.randrange(4)})
-    cases.extend(const_shape(rng) for _ in range(300 if tier == 'quick' else 6000))
+    cases.extend(const_shape(rng) for _ in range(300 if tier == 'quick' else 3000))
     cases.extend(const_pairs(tier))
     cases.extend(exhaustive_pairs(tier))
     cases.extend(S.gen_case(rng) for _ in range(900 if tier == 'quick' else 10000))
